@@ -34,6 +34,12 @@ impl InputVariant {
         }
     }
 
+    /// Whether this is a tuple variant that generated `FromMeta` code cannot parse:
+    /// one that is not skipped and has a number of fields other than one.
+    pub(crate) fn is_unparseable_tuple(&self) -> bool {
+        !self.skip.unwrap_or_default() && self.data.is_tuple() && !self.data.is_newtype()
+    }
+
     pub fn from_variant(v: &syn::Variant, parent: Option<&Core>) -> Result<Self> {
         let mut starter = (InputVariant {
             ident: v.ident.clone(),
